@@ -13,7 +13,7 @@ META = {
     "text": "Every integer spin polynomial with <=3 spins, 1 term (+ all unit-coefficient 2-term ones) (quick) / <=2 terms (thorough) over {-2,-1,1,2} and offset in -2..2, every relation, log_trick, six "
             "kinds of valid bounds and three weights is added to an empty PCSO; on the table over all variables and ancillas F>=0, min_a F=0 exactly where P R 0 "
             "and >=lam elsewhere (unless warned unsatisfiable), is_solution_valid agrees with the relation, only __a ancillas appear, P is unchanged. All ordered "
-            "sequences of length 2 from a 12-constraint spin menu: ancilla names never repeat across the PCSO / temporary-PCBO hand-off, num_ancillas covers every ancilla, penalties add.",
+            "sequences of length 2 from a 15-constraint spin menu; the spin images m*B((1-z)/2) of every boolean B with <=2 (thorough 3) unit-coefficient terms (the inputs that reach the boolean special forms): ancilla names never repeat across the PCSO / temporary-PCBO hand-off, num_ancillas covers every ancilla, penalties add.",
     "note": "Bounded: n<=3, coefficient alphabet, <=11 ancillas per constraint / <=16 variables per sequence (larger ones counted as skipped). Reference relation semantics on numpy tables.",
 }
 
